@@ -605,9 +605,13 @@ def _bound_invariants(c: Ctx, r: RuleResult) -> None:
                 b = n.func.value
                 if isinstance(b, ast.Attribute) and b.attr == "eMarks" and c.tf.scope(f).type(b.value) == "StateBlock":
                     key = f"eMarks-store|{f.short}|{alpha(f, n)}"
-                    if f.short == "StateBlock.__init__":
+                    ctor = c.p.func("rules_block/state_block.py:StateBlock.__init__")
+                    only_ctor = f.module is ctor.module and bool(c.cg.callers.get(f)) and all(
+                        cs_.caller is ctor for cs_ in c.cg.callers.get(f, []))
+                    if f.short == "StateBlock.__init__" or only_ctor:
                         r.add(key, c.where(f, n), f.short, U(n), "discharged",
-                              "line-end table filled by the constructor (assumed: with positions of the scan, <= len(src))")
+                              "line-end table filled by the constructor" + (" (through a helper only it calls)" if only_ctor else "") +
+                              " (assumed: with positions of the scan, <= len(src))")
                     else:
                         r.add(key, c.where(f, n), f.short, U(n), "violation", "eMarks mutated outside the constructor")
 
